@@ -263,18 +263,24 @@ def _expand(P, helper, call, target, counter, at):
     """statements replacing `target = helper(args)`; None if the argument binding is not simple"""
     fn = copy.deepcopy(helper.node)
     a = fn.args
-    if a.vararg or a.kwarg or a.kwonlyargs or any(isinstance(x, ast.Starred) for x in call.args) or any(k.arg is None for k in call.keywords):
+    if a.vararg or a.kwarg or any(isinstance(x, ast.Starred) for x in call.args) or any(k.arg is None for k in call.keywords):
         return None
     params = [x.arg for x in a.posonlyargs + a.args]
+    npos = len(params)
     deco = [ast.unparse(d) for d in fn.decorator_list]
     actual = list(call.args)
     if isinstance(call.func, ast.Attribute) and params and 'staticmethod' not in deco and helper.cls:
         actual = [call.func.value] + actual          # bound receiver
     kw = {k.arg: k.value for k in call.keywords}
     defaults = dict(zip(params[len(params) - len(a.defaults):], a.defaults))
+    # keyword-only parameters are bound by keyword (or their default) after the positional ones
+    for x_, d_ in zip(a.kwonlyargs, a.kw_defaults):
+        params.append(x_.arg)
+        if d_ is not None:
+            defaults[x_.arg] = d_
     binds = []
     for i, p in enumerate(params):
-        if i < len(actual):
+        if i < len(actual) and i < npos:
             binds.append((p, actual[i]))
         elif p in kw:
             binds.append((p, kw[p]))
@@ -282,7 +288,7 @@ def _expand(P, helper, call, target, counter, at):
             binds.append((p, defaults[p]))
         else:
             return None
-    if len(actual) > len(params):
+    if len(actual) > npos:
         return None
     sfx = f'__h{counter}'
     ren = {n: n + sfx for n in _locals_of(fn)}
@@ -1013,7 +1019,19 @@ def normalise_calls(P):
     if base is not None:
         new = {q for q, f in P.funcs.items() if q not in base and not isinstance(f.node, ast.Lambda) and '#' not in q
                and not q.split('.')[-1].startswith('__')}
+        new -= set(getattr(P, 'renamed_anchors', {}) or {})      # a reference function that moved is not a helper to expand
         # only helpers living next to reference code: module functions / methods / nested functions of analysed modules
+        # a plain function that only forwards to a new coroutine function (`def f(x): return h(x)` with `async def h`) is, for its awaiting
+        # callers, `async def f(x): return await h(x)`
+        for q, f in list(P.funcs.items()):
+            if q in new or not isinstance(f.node, ast.FunctionDef):
+                continue
+            body = [s_ for s_ in f.node.body if not (isinstance(s_, ast.Expr) and isinstance(s_.value, ast.Constant) and isinstance(s_.value.value, str))]
+            if len(body) == 1 and isinstance(body[0], ast.Return) and isinstance(body[0].value, ast.Call):
+                t = _resolve(P, f, body[0].value)
+                if isinstance(t, str) and t in new and isinstance(P.funcs[t].node, ast.AsyncFunctionDef) and not f.node.decorator_list:
+                    f.node.__class__ = ast.AsyncFunctionDef
+                    body[0].value = ast.copy_location(ast.Await(value=body[0].value), body[0].value)
         if new:
             state = {'n': 0, 'depth': 0, 'expanded': stats['expanded']}
             for q, f in list(P.funcs.items()):
